@@ -726,7 +726,9 @@ Qed.
 (** ** 8. The alphabet of [Driver3] *)
 
 (** everything except [reorder], [configure(reordering=True)], the harness
-    setter that enables reordering, and the shutdown (see section 10) *)
+    setter that enables reordering, and the shutdown (see section 10); the
+    assignment of the node limit [ASetMaxNodes n] ([bdd._bdd.max_nodes = n]) is
+    allowed with ANY value (it is one of the [_ => true] cases) *)
 Definition a_allowed (o : aop) : bool :=
   match o with
   | ANew levels => bool_decide (NoDup (levels.*1) ∧ NoDup (levels.*2))
@@ -762,6 +764,13 @@ Proof.
   apply AStep_same; [done|by repeat split|done|apply HA].
 Qed.
 
+(** [bdd._bdd.max_nodes = n]: only that field changes *)
+Lemma asafe_set_max_nodes n : asafe (lift (modify (fun s => s <| max_nodes := n |>))).
+Proof.
+  intros a r a' HA. unfold lift. cbn [modify]. intros [= <- <-].
+  apply AStep_same; [done|by repeat split|done|apply HA].
+Qed.
+
 Lemma run_aop_grows w o : a_grows o = true → asafe (run_aop w o).
 Proof.
   intros Ho. destruct o; try discriminate Ho; cbn [run_aop];
@@ -774,6 +783,7 @@ Proof.
                 | apply asafe_f_child | apply asafe_a_succ | apply asafe_f_level
                 | apply asafe_f_var | apply asafe_f_ref | apply asafe_f_negated
                 | apply asafe_f_len | apply asafe_node_of | apply asafe_set_tape
+                | apply asafe_set_max_nodes
                 | apply asafe_lift, tsafe_set_trig ]
          |intros ?; asafe]).
   - (* configure *)
